@@ -225,6 +225,38 @@ Section S.
     Qed.
   End RatioNonneg.
 
+  (* ... and, generally, any predicate that holds of 1 and is kept by the update holds of the step ratio of every
+     reachable state *)
+  Section RatioPred.
+    Variable P : T -> Prop.
+    Hypothesis HP1 : P n1.
+    Hypothesis HPstep : forall (x : T) (i r : N),
+      P x -> P (nmin (nmul x (ndiv (ofN NN i) (nadd (ofN NN r) n1))) n1).
+
+    Lemma end_loop_ratio_pred c st : P (ratio st) -> P (ratio (end_loop c st)).
+    Proof.
+      unfold Optimiser.end_loop. intros H.
+      destruct (andb _ _); cbn [ratio]; [exact H|].
+      destruct (nltb _ _); [now apply HPstep | exact H].
+    Qed.
+
+    Lemma advance_ratio_pred c st d : P (ratio st) -> P (ratio (advance c st d)).
+    Proof.
+      intros H. destruct (fin st) eqn:Hfin; [now rewrite C06_fin_frozen|].
+      destruct (mc_step_keeps c st d) as (_ & Hr & _).
+      destruct (advance_cases NN fexp score c st d Hfin) as [-> | (-> & _ & _)].
+      - now rewrite Hr.
+      - apply end_loop_ratio_pred. now rewrite Hr.
+    Qed.
+
+    Theorem C19_ratio_pred c ps hs s0 draws : P (ratio (run c (init c ps hs s0) draws)).
+    Proof.
+      apply (run_invariant NN fexp score (fun st => P (ratio st)) c).
+      - intros st d. apply advance_ratio_pred.
+      - exact HP1.
+    Qed.
+  End RatioPred.
+
   (* the step of a proposal is exactly max_step * ratio (by definition of proposal), and the
      proposal replaces the one cell of the drawn handle by the clamped sample *)
   Theorem C19_proposal_shape c st d h :
